@@ -364,7 +364,12 @@ class DiscretizedSpace(TensorSpace):
             func = sampling_function(
                 inp, self.domain, out_dtype=self.dtype,
             )
-            sampled = point_collocation(func, self.meshgrid, **kwargs)
+            mesh = self.meshgrid
+            sampled = point_collocation(func, mesh, **kwargs)
+            if any(np.shares_memory(sampled, xi) for xi in mesh):
+                # The function returned (a view of) its input, i.e., of the
+                # grid coordinates, which the new element must not alias
+                sampled = sampled.copy()
             return self.element_type(
                 self, self.tspace.element(sampled, order=order)
             )
